@@ -174,7 +174,7 @@ _SAFE_BUILTINS = {
     'frozenset': frozenset, 'enumerate': enumerate, 'zip': zip, 'reversed': reversed,
     'sorted': sorted, 'int': int, 'bool': bool, 'str': str, 'min': min, 'max': max,
     'sum': sum, 'all': all, 'any': any, 'abs': abs, 'map': map, 'filter': filter,
-    'isinstance': isinstance, 'iter': iter, 'next': next, 'divmod': divmod, 'pow': pow,
+    'isinstance': lambda o, s: _isinstance(o, s), 'iter': iter, 'next': next, 'divmod': divmod, 'pow': pow,
     'True': True, 'False': False, 'None': None, 'print': lambda *a, **k: None,
     'bin': bin, 'chr': chr, 'ord': ord, 'round': round, 'float': float, 'bytes': bytes, 'bytearray': bytearray,
     'ValueError': ValueError, 'TypeError': TypeError, 'KeyError': KeyError,
@@ -574,7 +574,9 @@ class Interp:
             try:
                 return op(l, r)
             except TypeError:
-                self.unsupported(mod, e, f'operands {type(l).__name__}, {type(r).__name__}')
+                if isinstance(l, (ExternalRef, RepoFunc, ModuleRef)) or isinstance(r, (ExternalRef, RepoFunc, ModuleRef)):
+                    self.unsupported(mod, e, f'operands {type(l).__name__}, {type(r).__name__}')
+                raise InterpRaise('TypeError', e)
             except ZeroDivisionError:
                 raise InterpRaise('ZeroDivisionError')
         if isinstance(e, ast.UnaryOp):
@@ -612,7 +614,9 @@ class Interp:
                     if not f(left, right):
                         return False
                 except TypeError:
-                    self.unsupported(mod, e, 'incomparable values')
+                    if isinstance(left, (ExternalRef, RepoFunc, ModuleRef)) or isinstance(right, (ExternalRef, RepoFunc, ModuleRef)):
+                        self.unsupported(mod, e, 'incomparable values')
+                    raise InterpRaise('TypeError', e)
                 left = right
             return True
         if isinstance(e, ast.IfExp):
@@ -805,6 +809,23 @@ class Interp:
             raise
         except (IndexError, KeyError, ValueError, TypeError, StopIteration, AttributeError) as ex:
             raise InterpRaise(type(ex).__name__, e)
+
+
+def _isinstance(obj, spec):
+    """isinstance that understands repository classes and enums."""
+    if isinstance(spec, tuple):
+        return any(_isinstance(obj, s) for s in spec)
+    if isinstance(spec, RepoEnum):
+        return isinstance(obj, EnumMember) and obj.cls_name == spec.name
+    if isinstance(spec, RepoClass):
+        if isinstance(obj, Instance):
+            return obj._cls.node is spec.node or spec.node.name in [norm(b).split('.')[-1] for b in obj._cls.node.bases]
+        return getattr(type(obj), '__name__', None) == spec.node.name or getattr(obj, '_repo_class_name', None) == spec.node.name
+    if isinstance(spec, (ExternalRef, ModuleRef)):
+        return False
+    if isinstance(spec, type):
+        return isinstance(obj, spec)
+    return False
 
 
 def members_as_values(members):
